@@ -1,7 +1,7 @@
 (* Request/response interface of the executable model: one S-expression in,
    one out.  Shared by the extracted runner and the in-Coq path. *)
 From InfluxQL Require Import Base.Prelude Base.Sexp Base.Oracles Lex.Token Lex.Reader Lex.Scanner Ast.Ast Ast.SexpAst
-  Val.Duration Parse.ExprTree Parse.Instr Parse.ParseExpr Parse.ParseStmts Ast.Printer Ast.PrinterStmts Parse.Params Ast.Privileges Ast.ColumnNames Sem.Eval Sem.Reduce Sem.Condition Ast.Clone.
+  Val.Duration Parse.ExprTree Parse.Instr Parse.ParseExpr Parse.ParseStmts Ast.Printer Ast.PrinterStmts Parse.Params Ast.Privileges Ast.ColumnNames Sem.Eval Sem.Reduce Sem.Condition Ast.Clone Ast.GroupBy.
 
 Definition bad_request : sexp := L [A (-1)].
 
@@ -216,6 +216,13 @@ Definition dispatch1 (orc : oracles) (req : sexp) : sexp :=
               let shared (ol : list loc) (l : loc) := se_bool (existsb (Z.eqb l) ol) in
               L [se_expr (erase_lexpr cl); L (map (shared (locs_lexpr orig)) (locs_lexpr cl));
                  L (map (shared (rx_lexpr orig)) (rx_lexpr cl))]
+          | None => bad_request
+          end
+      | 21%nat, [q] =>
+          match sd_select q with
+          | Some q' =>
+              L [se_res A (Ast.GroupBy.group_by_interval q'); se_res A (group_by_offset q');
+                 se_res (fun dt => L [A (fst dt); se_list se_text (snd dt)]) (normalize (s_dims q'))]
           | None => bad_request
           end
       | 12%nat, [e] => match sd_expr e with Some e' => se_text (print_expr orc e') | None => bad_request end
